@@ -13,6 +13,7 @@ from mc import runner as _runner
 
 _EPOCH = _dt.datetime(2020, 1, 1)
 
+_TEARDOWNS = 0
 CURRENT = None  # the VLoop of the execution in progress (one per process at a time)
 
 
@@ -182,6 +183,12 @@ class VLoop(asyncio.BaseEventLoop):
                 pass
             sys.unraisablehook = old_hook
             _runner.WATCHDOG_FIRED = fired
+            # finished worlds are cyclic garbage; without a periodic full collection they pile up in the oldest
+            # generation and every later execution pays for them (all_tasks() weak set, gc scans)
+            global _TEARDOWNS
+            _TEARDOWNS += 1
+            if _TEARDOWNS % 300 == 0:
+                gc.collect()
 
     def read_exc_log(self):
         gc.collect(1)
